@@ -18,7 +18,8 @@ RULE = (
     "macro/call in random nesting order (depth<=4) over names a,b,c (+now,today,partial,forloop,size,args), three "
     "partial templates, the four global layers populated independently, reads of paths of length 1..4, both string "
     "flags, default and strict undefined, small context_depth_limit in 10%. "
-    "stream path (exhaustive): 17 objects x 21 keys (names, size/first/last, indexes -4..5, bool, nested variable "
+    "stream order_tablerow (exhaustive, engine only): the tablerow variable and tablerowloop over every subset of "
+    "the five outer layers. stream path (exhaustive): 17 objects x 21 keys (names, size/first/last, indexes -4..5, bool, nested variable "
     "paths, quoted and bracketed forms) x 4 flag settings x default/strict undefined, plus random paths of length "
     "2..4 over random nested data. Non-trivial: order - at least two layers bound; nest - at least two binding "
     "constructs nested or a partial used, and the render completed; path - the path has >= 2 segments and the "
@@ -151,7 +152,7 @@ class NestStream(Stream):
     parallel = True
 
     def cases(self, ctx):
-        n = ctx.scale(2500, 30000)
+        n = ctx.scale(2000, 30000)
         rng = ctx.rng_for("nest")
         return [scopegen.gen_program(rng.fork(f"p{i}")) for i in range(n)]
 
@@ -308,7 +309,7 @@ class PathRandomStream(Stream):
     def cases(self, ctx):
         rng = ctx.rng_for("paths")
         out = []
-        for i in range(ctx.scale(1500, 15000)):
+        for i in range(ctx.scale(1000, 15000)):
             g = scopegen.G(rng.fork(f"d{i}"))
             data = {"a": g.data(3), "b": g.data(2), "c": g.data(1)}
             reads = []
@@ -339,5 +340,58 @@ class PathRandomStream(Stream):
         yield from shrink_prog(case)
 
 
+class TablerowStream(Stream):
+    """tablerow's loop variable and `tablerowloop` are block-scoped too (engine only: tablerow's HTML is not in the model)."""
+
+    name = "order_tablerow"
+    exhaustive = True
+    has_model = False
+
+    def cases(self, ctx):
+        out = []
+        layers = ["L", "A", "M", "T", "E"]
+        for r in range(len(layers) + 1):
+            for subset in itertools.combinations(layers, r):
+                for inside in ((False, True) if "L" in subset else (False,)):
+                    out.append({"subset": list(subset), "inside": inside})
+        return out
+
+    def impl(self, case):
+        import warnings
+
+        from liquid import Environment
+
+        sub = case["subset"]
+        local = "{% assign x = 'L' %}"
+        src = (local if "L" in sub and not case["inside"] else "")
+        src += "{% tablerow x in zz %}" + (local if "L" in sub and case["inside"] else "") + "<{{ x }}|{{ tablerowloop.col }}>{% endtablerow %}"
+        src += "<{{ x }}|{{ tablerowloop.col }}>"
+        try:
+            env = Environment(globals={"x": "E"} if "E" in sub else None)
+            with warnings.catch_warnings():
+                warnings.simplefilter("ignore")
+                t = env.from_string(src, globals={"x": "T"} if "T" in sub else None, matter={"x": "M"} if "M" in sub else None)
+                args = {"zz": ["B"]}
+                if "A" in sub:
+                    args["x"] = "A"
+                return {"ok": t.render(**args)}
+        except Exception as e:
+            return {"err": type(e).__name__}
+
+    def oracle(self, case, obs):
+        sub = case["subset"]
+        outer = next((v for v in ("L", "A", "M", "T", "E") if v in sub), "")
+        text = obs.get("ok")
+        if text is None or "<B|1>" not in text or not text.endswith("<" + outer + "|>"):
+            return (f"order|tablerow|top={sub[0] if sub else 'none'}", f"expected <B|1> inside and <{outer}|> after the block, got {obs}")
+        return None
+
+    def tags(self, case, obs):
+        return [f"layers{len(case['subset'])}"]
+
+    def shrink_candidates(self, case):
+        return []
+
+
 def streams(ctx):
-    return [OrderStream(), PathStream(), PathRandomStream(), NestStream()]
+    return [OrderStream(), TablerowStream(), PathStream(), PathRandomStream(), NestStream()]
